@@ -37,7 +37,7 @@ Matches(e) ==
       /\ o.operation_name = e.ident
       /\ o.struct_ident = e.ident
       /\ o.mode = "Derive"
-      /\ o.module_visibility = "pub"
+      /\ o.module_visibility = e.vis       \* the visibility written on the struct
       /\ o.serde_path = "graphql_client::_private::serde"
 
 Next == /\ l <= Len(Rec)
